@@ -96,7 +96,7 @@ func (x *c10Gen) op() {
 	g := x.g
 	c := g.R.Intn(c10NumChan)
 	sh := &x.sh[c]
-	switch g.R.Pick(20, 8, 12, 25, 18, 8, 3, 3, 2, 1) {
+	switch g.R.Pick(20, 8, 14, 20, 14, 8, 3, 3, 2, 1, 10, 4) {
 	case 0: // follower apply
 		n := g.R.Pick(1, 3, 4, 3, 2)
 		base := sh.leo + 1
@@ -184,7 +184,16 @@ func (x *c10Gen) op() {
 		if g.R.Chance(20) {
 			maxBytes = g.R.Range(1, 8)
 		}
-		g.Op("retain", "%d %d %d %d %d %s %s %d %d %d", c, through, rts, role, local, isr, prog, hwlead, maxMsgs, maxBytes)
+		failck := 0
+		if g.R.Chance(30) {
+			failck = 1 // the retention checkpoint write (if one is issued) fails
+			g.Count("retain:checkpoint-write-fails")
+		}
+		g.Op("retain", "%d %d %d %d %d %s %s %d %d %d %d", c, through, rts, role, local, isr, prog, hwlead, maxMsgs, maxBytes, failck)
+		if g.R.Chance(45) { // the GC pass retries the same boundary
+			g.Op("retain", "%d %d %d %d %d %s %s %d %d %d %d", c, through, rts, role, local, isr, prog, hwlead, maxMsgs, maxBytes, 0)
+			g.Count("retain:retry-same-boundary")
+		}
 		if through > sh.local {
 			sh.local = through
 		}
@@ -254,8 +263,42 @@ func (x *c10Gen) op() {
 		g.Op("lret", "%d", c)
 	case 8:
 		g.Op("close", "%d", c)
-	default:
+	case 9:
 		g.Op("reopen", "")
+	case 10: // forwarded committed read on the leader: normal branch, missing-meta fallback, fenced-off branches
+		mode := g.R.Pick(5, 6, 1, 1, 1, 1, 1)
+		rev := g.R.Intn(2)
+		from := x.bound(uint64(g.R.Intn(int(sh.leo) + 1)))
+		max := x.bound(sh.leo)
+		mn := "0"
+		if g.R.Chance(30) {
+			mn = x.bound(sh.local)
+		}
+		rts := uint64(0)
+		if g.R.Chance(40) {
+			rts = x.near(sh.local)
+		}
+		mrts := uint64(0)
+		if g.R.Chance(30) {
+			mrts = x.near(sh.local)
+		}
+		em := g.R.Pick(1, 2, 5, 2)
+		mm := g.R.Pick(1, 2, 5, 2)
+		g.Count(fmt.Sprintf("fread:mode=%d", mode))
+		if mode == 1 && em >= 2 {
+			g.Count("fread:fallback-with-quorum-minisr")
+		}
+		g.Op("fread", "%d %d %d %s %s %s %d %d %d %d %d", c, mode, rev, from, max, mn, g.R.Pick(3, 2, 2, 2, 1), rts, em, mm, mrts)
+	default: // sync page served by a remote leader (forwarded read through the RPC codec)
+		mode := g.R.Intn(2)
+		start, end := uint64(0), uint64(0)
+		if g.R.Chance(60) {
+			start = x.near(uint64(g.R.Intn(int(sh.leo) + 1)))
+		}
+		if g.R.Chance(30) {
+			end = x.near(uint64(g.R.Intn(int(sh.leo) + 1)))
+		}
+		g.Op("fsync", "%d %d %d %d %d %d %d %d", c, mode, start, end, 0, g.R.Pick(1, 2, 3, 2, 2), 0, g.R.Pick(1, 3, 5))
 	}
 }
 
